@@ -1,6 +1,6 @@
 SPECIFICATION Spec
 CONSTANTS
-  TypeSet <- TypesC
+  TypeSet <- ThorC
   TopLen = 3
   TypesOnly = FALSE
   Dump = TRUE
